@@ -8,12 +8,24 @@ def _norm(s):
     return re.sub(r"\s+", "", s)
 
 
+def _loops_over_parts(co):
+    """the loop that folds the word ids runs over path[begin..end] (written with .iter(), as a borrow, or through a binding)"""
+    m = re.search(r"fornodein([^{};]*)\{[^{}]*wid=wid\.max\(node\.word_id\(\)\);", co)
+    if not m:
+        return False
+    src = m.group(1)
+    if src in ("path[begin..end].iter()", "&path[begin..end]"):
+        return True
+    return re.search(r"let%s=&path\[begin\.\.end\];" % re.escape(src.lstrip("&")), co) is not None
+
+
 def gen():
     out = [F.HEADER]
     # ---- WordId::new / dic / word
     w = F.strip_comments(F.src("sudachi/src/dic/word_id.rs"))
     nb = _norm(F.fn_body(w, "new", "word_id.rs"))
-    m = re.search(r"letdic_part=\(\(dic&(0x[0-9a-fA-F]+|\d+)\)asu32\)<<(\d+);letword_part=word&WORD_MASK;letraw=dic_part\|word_part;", nb)
+    m = re.search(r"letdic_part=\(\(dic&(0x[0-9a-fA-F]+|\d+)\)asu32\)<<(\d+);letword_part=word&WORD_MASK;"
+                  r"(?:let(\w+)=dic_part\|word_part;(?:return)?Self::from_raw\(\3\);?|(?:return)?Self::from_raw\(dic_part\|word_part\);?)$", nb)
     if not m:
         raise F.FactError("WordId::new is no longer `((dic & m) << s) | (word & WORD_MASK)`")
     out.append("Definition DIC_MASK : N := %s.\nDefinition DIC_SHIFT : N := %s.\n" % (F.coq_int(int(m.group(1), 0)), F.coq_int(int(m.group(2)))))
@@ -57,6 +69,16 @@ def gen():
     out.append("Definition lookup_reversed : bool := %s.\n" % ("true" if m.group(1) else "false"))
     gb = _norm(F.fn_body(ls, "get_word_info_subset", "lexicon_set.rs"))
     m = re.search(r"ifdict_id(>=|>|!=)(\d+)&&pos_id(>=|>)self\.num_system_pos\{word_info\.pos_id=\(pos_idasusize-self\.num_system_pos\+self\.pos_offsets\[dict_idasusize\]\)asu16;\}", gb)
+    if not m:
+        # the same rule in a private helper: `word_info.pos_id = self.helper(word_info.pos_id, dict_id)` under the POS_ID test,
+        # helper(raw, dict_id) = if dict_id > 0 && raw >= num_system_pos { raw - num_system_pos + pos_offsets[dict_id] } else { raw }
+        hc = re.search(r"ifsubset\.contains\(InfoSubset::POS_ID\)\{word_info\.pos_id=self\.(\w+)\(word_info\.pos_id,dict_id\);\}", gb)
+        if hc and not re.search(r"\bpub(?:\([a-z]+\))?\s+fn\s+%s\b" % hc.group(1), ls):
+            sig = re.search(r"\bfn\s+%s\s*\(\s*&self\s*,\s*(\w+)\s*:\s*u16\s*,\s*dict_id\s*:\s*u8\s*\)\s*->\s*u16" % hc.group(1), ls)
+            if sig:
+                raw = sig.group(1)
+                hb = _norm(F.fn_body(ls, hc.group(1), "lexicon_set.rs"))
+                m = re.fullmatch(r"letpos_id=%sasusize;ifdict_id(>=|>|!=)(\d+)&&pos_id(>=|>)self\.num_system_pos\{\(pos_id(?:asusize)?-self\.num_system_pos\+self\.pos_offsets\[dict_idasusize\]\)asu16\}else\{%s\}" % (raw, raw), hb)
     if not m:
         raise F.FactError("POS rebasing in get_word_info_subset is no longer `dict_id > 0 && pos_id >= num_system_pos => pos_id - num_system_pos + pos_offsets[dict_id]`")
     out.append('Definition rebase_dic_cmp : string := "%s".\nDefinition rebase_dic_rhs : N := %s.\nDefinition rebase_pos_cmp : string := "%s".\n' %
@@ -139,12 +161,13 @@ def gen():
     co = _norm(F.fn_body(nd, "concat_oov_nodes", "analysis/node.rs"))
     if "letmutwid=WordId::from_raw(0);" in co and "wid=wid.max(node.word_id());" in co \
             and "if!wid.is_oov(){wid=WordId::new(wid.dic(),WordId::MAX_WORD);}" in co \
-            and re.search(r"Node::new\(path\[begin\]\.begin\(\)asu16,path\[end-1\]\.end\(\)asu16,u16::MAX,u16::MAX,i16::MAX,wid,\)", co):
+            and re.search(r"Node::new\([^;{}]*?asu16,[^;{}]*?asu16,u16::MAX,u16::MAX,i16::MAX,wid,?\)", co) \
+            and _loops_over_parts(co):
         out.append('Definition join_oov_wid_rule : string := "max-of-parts;non-oov->(dic,MAX_WORD)".\n')
     else:
         raise F.FactError("concat_oov_nodes no longer gives the joined node `max over the parts' word ids, (dic, MAX_WORD) when that is not OOV`")
     cn = _norm(F.fn_body(nd, "concat_nodes", "analysis/node.rs"))
-    if not re.search(r"Node::new\(path\[begin\]\.begin\(\)asu16,path\[end-1\]\.end\(\)asu16,u16::MAX,u16::MAX,i16::MAX,WordId::INVALID,\)", cn):
+    if not re.search(r"Node::new\([^;{}]*?asu16,[^;{}]*?asu16,u16::MAX,u16::MAX,i16::MAX,WordId::INVALID,?\)", cn):
         raise F.FactError("concat_nodes no longer gives the joined node WordId::INVALID")
     if "pubconstINVALID:WordId=WordId::from_raw(0xffff_ffff);" not in _norm(w):
         raise F.FactError("WordId::INVALID is no longer 0xffff_ffff")
